@@ -140,3 +140,15 @@ package keeper
 // verif:func (Keeper).IterateClients
 //@ loop 1 forkey c string :: host.FullClientStateKey(c) requires noslash(c) && len(c) != 0
 //@ loop 1 continue [parse-back] ncalls("cb") == 1 && callarg("cb", 0) == c
+
+// ---- genesis export of the relayer registry: every stored entry is exported as the value it decodes to (C13) ----
+// verif:func (Keeper).GetAllRelayers
+//@ loop 1 continue [decoded-as-stored] relayers[len(relayers)-1] == pbdecode(iterator.Value(), types.IdentifiedRelayer)
+
+// ---- genesis export readers: read-only (their results are what ExportGenesis returns, see x/xibc/core/client) ----
+// verif:func (Keeper).GetAllGenesisClients
+//@ ensures [read-only] unchanged(ctx)
+// verif:func (Keeper).GetAllClientMetadata
+//@ modifies xibc(ctx)
+// verif:func (Keeper).GetAllConsensusStates
+//@ ensures [read-only] unchanged(ctx)
